@@ -1,5 +1,6 @@
 import BbRe.Lemmas.BuildClientFrame
 import BbRe.Lemmas.BuildClientBound
+import BbRe.Lemmas.BuildClientHanded
 /-!
 # C08 — worker: one action at a time, honest state, safe shutdown
 
@@ -199,6 +200,34 @@ theorem shutdown_keeps_synchronizing (s : State) (t : Nat) (hpc : s.pc = .top)
   split
   · exact Or.inl ⟨_, rfl⟩
   · exact Or.inr ⟨_, rfl⟩
+
+/-- Once an execute instruction has been accepted (the thread has left
+`startExecution`'s drain loop) and until the next scheduler reply is processed,
+the may-think bound is exactly the `NextSynchronizationAt` handed out *with that
+instruction* plus one minute — not the stale previous deadline (a long poll may
+return the action long after it). -/
+theorem bound_is_handed_out_deadline (t0 : Nat) (evs : List Ev) (ts : Nat) (d : Digest)
+    (hl : (run (init t0) evs).lastReply = some (.reply (some ts) (.execute (.ok d))))
+    (hnd : ∀ k, (run (init t0) evs).pc ≠ .drain k) :
+    (run (init t0) evs).mayThink = some (ts + 60) :=
+  ((handed_reachable t0 evs) ts d hl).2 hnd
+
+/-- Hence a worker that was handed an action does not terminate on shutdown
+before that deadline + 1 min has passed (unless a later reply settles it): the
+next `Run` goes on to `select` / `Synchronize`. -/
+theorem no_termination_before_handed_out_deadline (t0 : Nat) (evs : List Ev) (ts : Nat)
+    (d : Digest)
+    (hl : (run (init t0) evs).lastReply = some (.reply (some ts) (.execute (.ok d))))
+    (hpc : (run (init t0) evs).pc = .top) (hn : (run (init t0) evs).now ≤ ts + 60) :
+    ∃ s', runBegin (run (init t0) evs) = some s' ∧
+      ((∃ rc, s'.pc = .select rc) ∨ ∃ ce, s'.pc = .sync ce) :=
+  shutdown_keeps_synchronizing _ (ts + 60) hpc
+    (bound_is_handed_out_deadline t0 evs ts d hl (by simp [hpc])) hn
+
+/-- non-vacuity: a long poll (70 s) hands out action 3 with deadline 1075 while
+shutdown has begun; the bound is 1135, not the stale 1060. -/
+example : (run (init 1000) [.runBegin, .readyResult true, .tick 70, .cancel,
+    .reply (.reply (some 1075) (.execute (.ok 3)))]).mayThink = some 1135 := by decide
 
 /-- The may-think bound is at most one minute after the latest synchronization
 time the scheduler ever announced (`maxSync`, ghost). -/
